@@ -81,6 +81,7 @@ func VerifyFunc(p *Program, fc *FuncContract, opts VerifyOpts) (rep *FuncReport)
 	x.revealed = map[string]bool{}
 	for _, r := range fc.Reveal {
 		x.revealed[r] = true
+		delete(x.opaque, r)
 	}
 	for _, o := range fc.Opaque {
 		x.opaque[o] = true
@@ -176,6 +177,7 @@ func VerifyFunc(p *Program, fc *FuncContract, opts VerifyOpts) (rep *FuncReport)
 	// the axioms list grows while executing; give every obligation the final list
 	for _, o := range x.obs {
 		o.Axioms = x.axioms
+		o.SpecDefs = x.specDefs
 	}
 	rep.Obligations = x.obs
 	rep.Abstractions = sortedKeys(x.abstr)
@@ -236,6 +238,7 @@ func VerifyLemma(p *Program, lm *Lemma) *FuncReport {
 	x.revealed = map[string]bool{}
 	for _, r := range lm.Reveal {
 		x.revealed[r] = true
+		delete(x.opaque, r)
 	}
 	for _, o := range lm.Opaque {
 		x.opaque[o] = true
@@ -315,6 +318,7 @@ func VerifyLemma(p *Program, lm *Lemma) *FuncReport {
 	}
 	for _, o := range x.obs {
 		o.Axioms = x.axioms
+		o.SpecDefs = x.specDefs
 	}
 	rep.Obligations = x.obs
 	rep.LemmasUsed = sortedKeys(x.lemmasUsed)
